@@ -1435,7 +1435,7 @@ fn check_diagram_structure(obs: &mut Obs, ds: &DsSpec, model: &Arc<Model>, tcs: 
 const PART_T: PartCfg = PartCfg {
     name: "transport",
     genome_len: 96,
-    cases_quick: 5000,
+    cases_quick: 15000,
     cases_thorough: 500_000,
     panic: PanicPolicy::Violation,
 };
@@ -1443,7 +1443,7 @@ const PART_T: PartCfg = PartCfg {
 const PART_L: PartCfg = PartCfg {
     name: "loss",
     genome_len: 64,
-    cases_quick: 5000,
+    cases_quick: 20000,
     cases_thorough: 500_000,
     panic: PanicPolicy::Violation,
 };
